@@ -322,8 +322,10 @@ class UpdateCollection(Message):
             if error:
                 raise ValueError(error)
 
+            # the NLRI field of RFC 4271 is IPv4 unicast only: every other family, IPv4 multicast
+            # included, travels in MP_REACH_NLRI (RFC 4760) or the peer reads it as unicast
             is_v4 = nlri.afi == AFI.ipv4
-            is_v4 = is_v4 and nlri.safi in [SAFI.unicast, SAFI.multicast]
+            is_v4 = is_v4 and nlri.safi == SAFI.unicast
             is_v4 = is_v4 and nexthop.afi == AFI.ipv4
 
             if is_v4:
@@ -351,7 +353,7 @@ class UpdateCollection(Message):
                 continue
 
             is_v4 = nlri.afi == AFI.ipv4
-            is_v4 = is_v4 and nlri.safi in [SAFI.unicast, SAFI.multicast]
+            is_v4 = is_v4 and nlri.safi == SAFI.unicast
 
             if is_v4:
                 v4_withdraws.append(nlri)
